@@ -1,4 +1,8 @@
-(* Proofs/SyncerProofs.v — lemmas about Model/Syncer.v (C02, C05). *)
+(* Proofs/SyncerProofs.v — lemmas about Model/Syncer.v (C02, C05).  The invariants are proved once, for the
+   general node (any signature payload provider, read faults: try_sync_f, process_f, boot_p, fstep); the
+   theorems about the node with the default provider and no fault (safety, monotone, recovery, progress,
+   complete_partial — used by C05, the composition theorems and the P2P ingress proofs) are corollaries
+   through frun_lift. *)
 From Coq Require Import String Ascii NArith ZArith List Bool Lia ZifyBool ZifyN ZifyNat.
 From Verif Require Import Base.KV Base.Keys Model.Types Model.Syncer.
 Import ListNotations.
